@@ -35,6 +35,10 @@ func c06Pos(layout int) ([]*decl.PosArg, string) {
 		return []*decl.PosArg{pa("Z", "0-1", decl.TStrings)}, ""
 	case 6, 7: // 7: as 6, but the program sets ArgsRequired on the command itself
 		return []*decl.PosArg{pa("X", "", decl.TString), pa("Y", "", decl.TString)}, ""
+	case 8: // a rest field without tag constraint whose maximum the program sets through Arg.RequiredMaximum
+		z := pa("Z", "", decl.TStrings)
+		z.MaxAPI = 1
+		return []*decl.PosArg{z}, ""
 	}
 	return nil, ""
 }
@@ -84,17 +88,20 @@ func init() {
 	cache := map[string]*decl.Decl{}
 	body := func(c *explore.Ctx) {
 		mask := c.Choose(64)
-		lay := c.Deviate(15) // 0 = none; 1..7 on b; 8..14 on the parser
+		lay := c.Deviate(17) // 0 = none; 1..8 on b; 9..16 on the parser
 		cmdReq := c.Deviate(2) == 1
 		// 1: an INI file read before the parse supplies the parser's string option and a's string option;
 		// 2: the same file is read by a callback option's default, declared after the required options
 		iniSupply := c.Deviate(4) // 3: as 1, read in as-defaults mode
+		// the same parser has parsed another line before: 1 = [a -q --atwo v] (command a with both of its options), 2 = [c -t];
+		// the options given there count as supplied for the rest of the parser's life, nothing else of that parse may matter
+		used := c.Deviate(3)
 		api := c.Bool()
 		layout, onB := 0, false
-		if lay >= 1 && lay <= 7 {
+		if lay >= 1 && lay <= 8 {
 			layout, onB = lay, true
-		} else if lay > 7 {
-			layout = lay - 7
+		} else if lay > 8 {
+			layout = lay - 8
 		}
 		maxDepth := 3
 		if c.Thorough {
@@ -115,7 +122,7 @@ func init() {
 			cache[key] = d
 		}
 		c.Describe(func() interface{} {
-			return map[string]interface{}{"tree": describeTree(d.Top), "api_path": api, "argv": argv,
+			return map[string]interface{}{"tree": describeTree(d.Top), "api_path": api, "argv": argv, "earlier_parse_on_same_parser": [][]string{nil, {"a", "-q", "--atwo", "v"}, {"c", "-t"}}[used],
 				"ini_file_supplying_P2_and_A2": []string{"not read", "read before ParseArgs", "read by the default of a func(string) option declared last on the parser", "read before ParseArgs in as-defaults mode"}[iniSupply]}
 		})
 		cfg := &ref.Config{D: d}
@@ -127,6 +134,15 @@ func init() {
 				}
 			}
 			c.Hit("supplied-by-ini")
+		}
+		if used != 0 {
+			cfg.Supplied = map[*decl.Opt]bool{}
+			for _, o := range d.EveryOpt() {
+				if (used == 1 && (o.Field == "A1" || o.Field == "A2")) || (used == 2 && o.Field == "C1") {
+					cfg.Supplied[o] = true
+				}
+			}
+			c.Hit("parser-used-before")
 		}
 		res := ref.Run(cfg, argv)
 		recordStates(c, key, res, nil)
@@ -161,6 +177,18 @@ func init() {
 					c.Fail("harness-ini-read-failed", iniErr.Error())
 				}
 			}()
+		}
+		if used != 0 {
+			w := [][]string{nil, {"a", "-q", "--atwo", "v"}, {"c", "-t"}}[used]
+			wr, _ := earlierParse(b, &ref.Config{D: d}, w)
+			if wr.Panic != nil {
+				c.Fail("panic|"+wr.PanicSite, fmt.Sprint("earlier parse ", w, ": ", wr.Panic))
+				return
+			}
+			if fe, ok := wr.Err.(*flags.Error); wr.Err != nil && (!ok || fe.Type != flags.ErrRequired) {
+				c.Fail("earlier-parse-outcome", fmt.Sprint(w, ": ", wr.Err)) // it may lack the parser's own required options, nothing else
+				return
+			}
 		}
 		rr := runParser(b, cfg, argv, runOpts{CommandHandler: true})
 		if rr.Panic != nil {
@@ -215,11 +243,11 @@ func init() {
 		Body:       body,
 		DevBound:   func(bool) int { return 1 },
 		Rule: "tree parser -> a -> b, sibling c, 6 options (c's option re-declares the long name of one of the parser's); all 64 subsets marked required (spellings yes/true/1, the others unmarked or marked false/no/0) x positional layouts " +
-			"{none, 3 scalars struct-required (up to three missing at once), per-field required, rest required 2, 1-2, 0-1, optional, two scalars made required by setting Command.ArgsRequired in the program} on b or on the parser x {tags, API} x every sequence of <= 3 (quick) / <= 4 (thorough) units " +
-			"supplying options by short, long=, separate and cluster spellings, command words, plain words, the empty word and the -- terminator (PassDoubleDash set; words after it still count for the positional constraints); one more deviation makes subcommands mandatory at both inner levels (a missing required option is still ErrRequired, not ErrCommandRequired); option types bool, string, func(), []bool; one more deviation has an INI file supply two of the options, read before the parse (plain or as defaults) or by the default of a callback option declared after them; oracle = CLM missing set: ErrRequired iff something on the active chain is missing, " +
+			"{none, 3 scalars struct-required (up to three missing at once), per-field required, rest required 2, 1-2, 0-1, optional, two scalars made required by setting Command.ArgsRequired in the program, a rest field whose maximum of 1 the program sets through Arg.RequiredMaximum (no minimum)} on b or on the parser x {tags, API} x every sequence of <= 3 (quick) / <= 4 (thorough) units " +
+			"supplying options by short, long=, separate and cluster spellings, command words, plain words, the empty word and the -- terminator (PassDoubleDash set; words after it still count for the positional constraints); one more deviation makes subcommands mandatory at both inner levels (a missing required option is still ErrRequired, not ErrCommandRequired); option types bool, string, func(), []bool; one more deviation has an INI file supply two of the options, read before the parse (plain or as defaults) or by the default of a callback option declared after them; one more deviation re-uses a parser that has already parsed [a -q --atwo v] or [c -t] (the options given there stay supplied, nothing else of that parse matters); oracle = CLM missing set: ErrRequired iff something on the active chain is missing, " +
 			"message names every missing item and none that is supplied or belongs to an unselected command; nothing executed",
 		Assumptions:  []string{"required options carry no default/env here (whether a default supplies a required option is not settled by the statement)", "markers are long option names / positional names chosen so that none is a substring of another"},
-		RequiredHits: []string{"clean", "required-fault|options", "required-fault|positionals", "supplied-by-ini"},
+		RequiredHits: []string{"clean", "required-fault|options", "required-fault|positionals", "supplied-by-ini", "parser-used-before"},
 		Bound:        [2]string{"unit sequences <= 3", "unit sequences <= 4"},
 		BudgetS:      [2]int{170, 1500},
 	})
